@@ -29,7 +29,7 @@ theorem PB_init (cb cc : Bool) (sd : Nat) :
 
 /-- close a `PB` goal from the `Same` / `PB` facts in the context -/
 macro "pb_close" : tactic =>
-  `(tactic| (simp only [PB, same_iff, frB_trackStack, frB_accumulate, frB_moveFwd, frB_addString, frB_enter] at *; grind [frB, PBf]))
+  `(tactic| (simp only [PB, same_iff, frB_trackStack, frB_accumulate, frB_moveFwd, frB_addString, frB_enter, frB_leave] at *; grind [frB, PBf]))
 
 /-! ## the primitives that touch the counters -/
 
@@ -184,9 +184,6 @@ theorem contAdd_frB (c : Cont) (sz : Nat) (s : St) : wp (c.add sz s) (fun r => f
         exact hb
     · wp_simp
 
-theorem putSet_frB (s : St) (r : SetRef) (ls : LabelSet) : frB (s.putSet r ls) = frB s := by
-  cases r <;> rfl
-
 theorem addLabel_frB (s : St) (i : Nat) (p c : Bool) : wp (s.addLabel i p c) (fun r => frB r.2 = frB s) EB := by
   unfold St.addLabel
   split
@@ -196,7 +193,7 @@ theorem addLabel_frB (s : St) (i : Nat) (p c : Bool) : wp (s.addLabel i p c) (fu
     intro a ha
     split
     · wp_simp; exact ha
-    · wp_simp; rw [putSet_frB]; exact ha
+    · wp_simp; exact ha
 
 theorem createSwitch_frB (s : St) (n : Nat) : wp (s.createSwitch n) (fun r => frB r.2 = frB s) EB := by
   unfold St.createSwitch
